@@ -3,7 +3,7 @@ import os
 import common
 from common import cq_list
 
-THEOREMS = ["c19_blocks", "c19_complete", "c19_sound", "c19_monotone", "c19_single", "c19_spelling", "c19_lint_ips", "c19_lint_nets"]
+THEOREMS = ["c19_blocks", "c19_complete", "c19_sound", "c19_monotone", "c19_single", "c19_spelling", "c19_arpa_reserved_needs_wellformed", "c19_lint_ips", "c19_lint_nets"]
 
 
 def run(ctx):
@@ -68,7 +68,21 @@ def run(ctx):
     f1 = common.corr_stream(ctx, "addr", d["cases"]["addr"], header, "chk_addr", "Ip.is_reserved vs util.IsIANAReserved")
     f2 = common.corr_stream(ctx, "net", d["cases"]["net"], header, "chk_net", "Ip.intersects vs util.IntersectsIANAReserved")
     f3 = common.corr_stream(ctx, "lints", d["cases"]["lints"], header, "chk_lints", "Ip.lint_ips / lint_nets vs the SAN, common-name and name-constraint lints", shard=100)
+    header_a = ("From ZL Require Import Base.Bytes Base.Corr Kernels.Ip Kernels.Bodies Kernels.Names Kernels.Tld Kernels.Arpa.\nFrom Gen Require Import NetworksData.\nFrom Coq Require Import NArith ZArith List Bool.\nImport ListNotations.\n"
+                "Definition obeq (a b : option bytes) : bool := match a, b with Some x, Some y => beqb x y | None, None => true | _, _ => false end.\n"
+                "(* the text the model assembles for a name is the text the oracle was asked about *)\n"
+                "Definition asm_ok (e : bytes * pres * option bytes) : bool := match e with (name, _, given) =>\n"
+                "  let n := go_lower name in match zone_of n with\n"
+                "  | ZNone => obeq given None\n"
+                "  | Z4 => obeq (assemble_v4 (labels_of Z4 n)) given\n"
+                "  | Z6 => match assemble_v6 (labels_of Z6 n) with Val a => obeq a given | OOR => false end end end.\n"
+                "Definition chk_arpa (c : bytes * list (bytes * pres * option bytes) * (Z * Z)) : bool := match c with (cn, es, (sm, sr)) =>\n"
+                "  let names := map (fun e => (fst (fst e), snd (fst e))) es in\n"
+                "  forallb asm_ok es && Z.eqb (l_malformed cn names) sm && Z.eqb (l_reserved tbl cn names) sr end.\n")
+    fa = common.corr_stream(ctx, "arpa", d["cases"].get("arpa", []), header_a, "chk_arpa", "Arpa.l_malformed / l_reserved (the two reverse-DNS lints; net.ParseIP as oracle, Ip.is_reserved over the build's table) and the assembled address text", shard=100)
+    common.require_outcomes(ctx, "arpa", d["cases"].get("arpa", []), [{"1", "3", "5"}, {"1", "3", "6"}])
     if not mon:
+        common.report_disagreements(ctx, "arpa", fa, "Kernels.Arpa", [])
         common.report_disagreements(ctx, "addr", f1, "Kernels.Ip.is_reserved", [])
         common.report_disagreements(ctx, "net", f2, "Kernels.Ip.intersects", [])
         common.report_disagreements(ctx, "lints", f3, "Kernels.Ip.lint_ips/lint_nets", [])
